@@ -126,7 +126,10 @@ def get_facts(config='default'):
 
 
 def get_witness_facts():
-    """facts of /verif/witness (a user crate path-depending on /repo) and of x86_64 as built for it"""
+    """facts of /verif/witness (a user crate path-depending on the repo under analysis) merged with the facts of
+    x86_64 itself: witness items keep their names, x86_64's items are named as in get_facts('default') (the
+    `x86_64::` crate prefix a downstream crate sees is stripped), so calls from the expansions resolve into the
+    crate's own bodies."""
     key = ('witness',)
     if key in _mem:
         return _mem[key]
@@ -139,12 +142,29 @@ def get_witness_facts():
         fcntl.flock(lk, fcntl.LOCK_EX)
         if not os.path.exists(path):
             t0 = time.time()
-            shutil.copy(os.path.join(REPO, 'Cargo.lock'), os.path.join(wdir, 'Cargo.lock.repo'))
-            _run_driver(wdir, ['witness'], [], '', path)
+            tmp = tempfile.mkdtemp(prefix='x86facts-witness-')
+            try:
+                shutil.copytree(os.path.join(wdir, 'src'), os.path.join(tmp, 'src'))
+                with open(os.path.join(wdir, 'Cargo.toml')) as fh:
+                    toml = fh.read()
+                assert 'path = "/repo"' in toml
+                with open(os.path.join(tmp, 'Cargo.toml'), 'w') as fh:
+                    fh.write(toml.replace('path = "/repo"', 'path = "%s"' % REPO))
+                shutil.copy(os.path.join(REPO, 'Cargo.lock'), os.path.join(tmp, 'Cargo.lock'))
+                _run_driver(tmp, ['witness'], [], '', path)
+            finally:
+                shutil.rmtree(tmp, ignore_errors=True)
             sys.stderr.write('[facts] extracted witness in %.1fs\n' % (time.time() - t0))
             _prune('witness', path)
     with open(path) as fh:
-        d = json.load(fh)['witness']
+        raw = fh.read()
+    w = json.loads(raw.replace('x86_64::', ''))['witness']
+    base = get_facts('default')
+    d = {'fns': w['fns'] + base['fns'], 'consts': w['consts'] + base['consts'],
+         'layouts': base['layouts'] + [l for l in w['layouts'] if l['tys'] not in set(x['tys'] for x in base['layouts'])],
+         'impls': base['impls'], 'witness_fns': [f['name'] for f in w['fns']]}
+    for k in base:
+        d.setdefault(k, base[k])
     _mem[key] = d
     return d
 
